@@ -59,16 +59,17 @@ Fixpoint nodup_str (l : list str) : list str :=
 
 Definition ends_star (f : str) : bool := match rev f with 42 :: _ => true | _ => false end.
 
-(* the cells of one index row: file (of the group), line cell, id, severity cell, message cell *)
+(* the cells of one index row: file (group header), line cell, id, severity cell, message cell;
+   file, id and message go through html_escape; the line cell is blank only for findings
+   without a file ('' = no location) or with a name ending in a star *)
 Definition row := (str * str * str * str * str)%type.
 
-Definition row_of (derr : list str) (e : herr) : row :=
+Definition row_of (e : herr) : row :=
   let f := e_file e in
-  let is_file := negb (str_eqb f []) && negb (mem f derr || ends_star f) in
-  (f, if is_file then dec_of_Z (e_line e) else [], e_id e,
+  (html_escape f, if negb (str_eqb f []) && negb (ends_star f) then dec_of_Z (e_line e) else [], html_escape (e_id e),
    if e_inconcl e then e_sev e ++ L ", inconcl." else e_sev e, html_escape (e_msg e)).
 
 Definition group (f : str) (es : list herr) : list herr := filter (fun e => str_eqb (e_file e) f) es.
 
-Definition index_rows (derr : list str) (es : list herr) : list row :=
-  flat_map (fun f => map (row_of derr) (sort_line (group f es))) (sort_str (nodup_str (map e_file es))).
+Definition index_rows (es : list herr) : list row :=
+  flat_map (fun f => map row_of (sort_line (group f es))) (sort_str (nodup_str (map e_file es))).
